@@ -2937,7 +2937,23 @@ impl Interpreter {
         // Environment roots pushed while the generator body runs are released when
         // control goes back to the caller; the generator object keeps its scopes alive
         let env_guards = self.env_guards.len();
+        {
+            // A generator cannot be resumed from inside its own body
+            let mut state = gen_state.borrow_mut();
+            if state.status == GeneratorStatus::Running {
+                return Err(JsError::type_error("Generator is already running"));
+            }
+            if state.status == GeneratorStatus::Suspended {
+                state.status = GeneratorStatus::Running;
+            }
+        }
         let result = self.resume_bytecode_generator_body(gen_state);
+        {
+            let mut state = gen_state.borrow_mut();
+            if state.status == GeneratorStatus::Running {
+                state.status = GeneratorStatus::Suspended;
+            }
+        }
         self.env_guards.truncate(env_guards);
         result
     }
